@@ -37,12 +37,16 @@ func C20Config(prop string, r *Rand, tier string) map[string]int64 {
 	c["w_rel"] = 55
 	c["w_time"] = int64(r.Range(8, 20))
 	c["w_fault"] = int64(r.Range(0, 8))
+	// reorgs that include a dropped claim transaction again (same hash, same event) with a different execution
+	c["w_fork"] = int64([]int{0, 0, 2, 5}[r.Intn(4)])
 	return c
 }
 
 type c20Claim struct {
 	Event      bridgesync.Claim // fields taken from the log
 	Acceptable []*ClaimCallSpec // calls the details may be taken from (empty: nothing may be recorded)
+	TxHash     common.Hash
+	Etrog      bool
 }
 
 type c20Block struct {
@@ -199,6 +203,8 @@ func runC20(tr *Trace, sc *Script, rec *Recorder, scratch string) *Violation {
 	w.Quiesce()
 
 	firstBad := uint64(0)
+	forks := 0
+	var carry []c20Claim // claims of dropped blocks that the new fork includes again
 	fill := func(r *Rand) func(b *FBlock) {
 		return func(b *FBlock) {
 			cb := c20Block{}
@@ -206,6 +212,9 @@ func runC20(tr *Trace, sc *Script, rec *Recorder, scratch string) *Violation {
 			if r.Bool(60) {
 				n = r.Range(1, 2)
 			}
+			again := carry
+			carry = nil
+			n += len(again)
 			for i := 0; i < n; i++ {
 				etrog := r.Bool(75)
 				var gi *big.Int
@@ -215,18 +224,26 @@ func runC20(tr *Trace, sc *Script, rec *Recorder, scratch string) *Violation {
 					gi = big.NewInt(int64(r.Intn(50)))
 				}
 				withValid := !r.Bool(int(cfg["p_no_valid"]))
-				tree, acceptable := genClaimTx(r, cfg, etrog, gi, withValid)
 				txh := genHash(r)
-				b.Traces[txh] = tree
 				ev := bridgesync.Claim{BlockNum: b.Num(), BlockPos: uint64(len(b.Logs)), GlobalIndex: gi, OriginNetwork: genNet(r), OriginAddress: genAddr(r),
 					DestinationAddress: genAddr(r), Amount: genAmount(r)}
+				if i < len(again) {
+					// the same transaction (hash, event) executed again in the new fork: its calls may differ (another
+					// route succeeds, the formerly successful one reverts)
+					o := again[i]
+					etrog, gi, txh, withValid = o.Etrog, o.Event.GlobalIndex, o.TxHash, true
+					ev.GlobalIndex, ev.OriginNetwork, ev.OriginAddress, ev.DestinationAddress, ev.Amount = gi, o.Event.OriginNetwork, o.Event.OriginAddress, o.Event.DestinationAddress, o.Event.Amount
+					rec.Stats.Inc("claim_txs_included_again_after_reorg")
+				}
+				tree, acceptable := genClaimTx(r, cfg, etrog, gi, withValid)
+				b.Traces[txh] = tree
 				if etrog {
 					ev.BlockTimestamp, ev.TxHash = b.Header.Time, txh
 					b.Logs = append(b.Logs, withTx(packLog(bridgeV2ABI, addrBridge, "ClaimEvent", gi, ev.OriginNetwork, ev.OriginAddress, ev.DestinationAddress, ev.Amount), txh))
 				} else {
 					b.Logs = append(b.Logs, withTx(packLog(bridgeV1ABI, addrBridge, "ClaimEvent", uint32(gi.Uint64()), ev.OriginNetwork, ev.OriginAddress, ev.DestinationAddress, ev.Amount), txh))
 				}
-				cb.Claims = append(cb.Claims, c20Claim{Event: ev, Acceptable: acceptable})
+				cb.Claims = append(cb.Claims, c20Claim{Event: ev, Acceptable: acceptable, TxHash: txh, Etrog: etrog})
 				rec.Stats.Inc("claims_generated")
 				if len(acceptable) == 0 {
 					rec.Stats.Inc("claims_without_valid_call")
@@ -248,7 +265,45 @@ func runC20(tr *Trace, sc *Script, rec *Recorder, scratch string) *Violation {
 		if err != nil {
 			return &Violation{Oracle: "harness", Detail: err.Error()}
 		}
-		if firstBad != 0 && lp >= firstBad {
+		// after a reorg the store may still hold blocks of the dropped fork (bringing it in line is C06's business):
+		// claims are judged for the blocks stored with their canonical hash, up to the first one that is not
+		storedHash := map[uint64]common.Hash{}
+		if forks > 0 {
+			rows, err := vp.DB().Query("SELECT num, hash FROM block")
+			if err != nil {
+				return &Violation{Oracle: "harness", Detail: "block table: " + err.Error()}
+			}
+			for rows.Next() {
+				var n uint64
+				var h *string
+				if rows.Scan(&n, &h) == nil && h != nil {
+					storedHash[n] = common.HexToHash(*h)
+				}
+			}
+			rows.Close()
+		}
+		isStale := func(n uint64) bool {
+			h, ok := storedHash[n]
+			return ok && (n > chain.HeadNum() || h != chain.Canon[n].Hash)
+		}
+		// blocks without watched events have no row: below a row of the dropped fork, only what lies at or below the
+		// last row that carries its canonical hash is known to be of the canonical chain
+		staleFrom, judged := uint64(0), lp
+		for n := uint64(1); n <= lp; n++ {
+			if isStale(n) {
+				staleFrom = n
+				break
+			}
+			if _, ok := storedHash[n]; ok {
+				judged = n
+			}
+		}
+		if staleFrom == 0 {
+			judged = lp
+		} else if judged >= staleFrom {
+			judged = 0
+		}
+		if firstBad != 0 && lp >= firstBad && firstBad <= judged {
 			return &Violation{Oracle: "advanced-past-bad-claim", Sig: "c20/advanced-past-unmatched-claim", Detail: fmt.Sprintf("%s: last processed block is %d but block %d holds a claim whose transaction has no non-reverted bridge call with the event's global index", ctx, lp, firstBad)}
 		}
 		stored, err := syncer.GetClaims(bg, 0, lp)
@@ -257,6 +312,10 @@ func runC20(tr *Trace, sc *Script, rec *Recorder, scratch string) *Violation {
 		}
 		si := 0
 		for n := uint64(1); n <= lp && n <= chain.HeadNum(); n++ {
+			if n > judged {
+				rec.Stats.Inc("checks_with_blocks_of_a_dropped_fork_still_stored")
+				return nil
+			}
 			cb, _ := chain.Canon[n].Payload.(c20Block)
 			for _, want := range cb.Claims {
 				if si >= len(stored) {
@@ -286,7 +345,7 @@ func runC20(tr *Trace, sc *Script, rec *Recorder, scratch string) *Violation {
 				}
 			}
 		}
-		if si != len(stored) {
+		if si != len(stored) && staleFrom == 0 {
 			return &Violation{Oracle: "extra-claim", Sig: "c20/extra-claim", Detail: fmt.Sprintf("%s: %d claims stored, %d expected up to block %d", ctx, len(stored), si, lp)}
 		}
 		return nil
@@ -294,12 +353,17 @@ func runC20(tr *Trace, sc *Script, rec *Recorder, scratch string) *Violation {
 
 	gen := func(r *Rand) (Op, bool) {
 		labels := w.ParkedLabels()
-		wts := []int{int(cfg["w_mine"]), int(cfg["w_rel"]), int(cfg["w_time"]), int(cfg["w_fault"])}
+		wts := []int{int(cfg["w_mine"]), int(cfg["w_rel"]), int(cfg["w_time"]), int(cfg["w_fault"]), int(cfg["w_fork"])}
 		if len(labels) == 0 {
 			wts[1], wts[3] = 0, 0
 			wts[2] += 30
 		}
+		if chain.HeadNum() < 2 {
+			wts[4] = 0
+		}
 		switch r.Pick(wts) {
+		case 4:
+			return Op{K: "fork", A: []int64{int64(r.U64() >> 1), int64(r.Range(1, 2)), int64(r.Range(1, 3)), int64(r.Range(30, 100))}}, true
 		case 0:
 			return Op{K: "mine", A: []int64{int64(r.U64() >> 1), int64(r.Range(1, 3))}}, true
 		case 1:
@@ -323,6 +387,41 @@ func runC20(tr *Trace, sc *Script, rec *Recorder, scratch string) *Violation {
 				chain.Mine(r.U64(), fill(r))
 			}
 			rec.Step(fmt.Sprintf("M%d", op.Arg(1)))
+		case "fork":
+			d := uint64(op.Arg(1))
+			if d >= chain.HeadNum() {
+				continue
+			}
+			r := NewRand(uint64(op.Arg(0)))
+			dropped := chain.Rewind(chain.HeadNum() - d)
+			carry = nil
+			for _, ob := range dropped {
+				if cb, ok := ob.Payload.(c20Block); ok {
+					for _, cl := range cb.Claims {
+						if r.Bool(int(op.Arg(3))) {
+							carry = append(carry, cl)
+						}
+					}
+				}
+			}
+			for i := int64(0); i < op.Arg(2); i++ {
+				chain.Mine(r.U64(), fill(r))
+			}
+			carry = nil
+			forks++
+			// the first canonical block whose claim has no valid call
+			firstBad = 0
+			for n := uint64(1); n <= chain.HeadNum() && firstBad == 0; n++ {
+				if cb, ok := chain.Canon[n].Payload.(c20Block); ok {
+					for _, cl := range cb.Claims {
+						if len(cl.Acceptable) == 0 {
+							firstBad = n
+						}
+					}
+				}
+			}
+			rec.Stats.Inc("forks")
+			rec.Step(fmt.Sprintf("K%d.%d", d, op.Arg(2)))
 		case "rel":
 			p := w.FirstParked(op.S)
 			if p == nil {
@@ -354,10 +453,10 @@ func runC20(tr *Trace, sc *Script, rec *Recorder, scratch string) *Violation {
 	cap := 300 + 80*int(chain.HeadNum())
 	for i := 0; i < cap; i++ {
 		lp, _ := syncer.GetLastProcessedBlock(bg)
-		if firstBad == 0 && lp >= lastEvent {
+		if firstBad == 0 && lp >= lastEvent && forks == 0 {
 			break
 		}
-		if firstBad != 0 && i > 120 {
+		if (firstBad != 0 || forks > 0) && i > 160 {
 			break
 		}
 		ps := w.Parked()
@@ -372,7 +471,10 @@ func runC20(tr *Trace, sc *Script, rec *Recorder, scratch string) *Violation {
 		return v
 	}
 	lp, _ := syncer.GetLastProcessedBlock(bg)
-	if firstBad == 0 && lp < lastEvent {
+	if forks > 0 {
+		// whether the node gets back in line after a reorg is C06's property: not judged here
+		rec.Stats.Inc("runs_with_reorgs")
+	} else if firstBad == 0 && lp < lastEvent {
 		return &Violation{Oracle: "liveness", Sig: "c20/not-synced", Detail: fmt.Sprintf("all claims have a valid call but after %d fair steps the syncer only reached block %d of %d", cap, lp, lastEvent)}
 	}
 	if firstBad != 0 {
